@@ -2,6 +2,7 @@ import NitroVerif.Lemmas.Shape
 import NitroVerif.Lemmas.ShapeInv
 import NitroVerif.Lemmas.TypeNoPanic
 import NitroVerif.Lemmas.ValueNoPanic
+import NitroVerif.Lemmas.ParseNoPanic
 /-!
 # C08 — no input text can make the toolchain panic (parser part: grammar ⇒ builder preconditions)
 
@@ -188,28 +189,75 @@ def typeSteps (n : Nat) : Nat :=
 theorem parse_steps_nested_list : ∀ n ∈ [1, 2, 3, 4, 5, 6], 2 ^ n ≤ typeSteps n := by
   decide +kernel
 
+/-! ### the closed statement for the parser -/
+
+/-- `pair_text_preconditions`: the text-dependent panic sites of the builders are unreachable — for ANY input, start rule
+    and depth bound, at every pair `q` of the parse tree: an `OperationType` pair's text is one of the three keywords
+    (`str_to_operation_type` returns), an `EscapedCharacter` pair's text is a known escape ("Unknown escape sequence" is
+    not reached), a `BlockStringValue` pair has at least 6 characters and an `EscapedUnicode4` pair at least 2 (the
+    `split_at` calls are in range), a `NormalStringCharacter` pair is not empty (`chars().next().unwrap()`), and an
+    `EscapedUnicodeBrace` pair has exactly one child whose text is the pair's text without `\u{` and `}` (what
+    `validate_unicode_escapes` checked is what the builder decodes). Derived from the witness of each pair (the
+    evaluation of its rule's body, `Lemmas/ParseWit.lean`) and the rule bodies of the GENERATED grammar. -/
+theorem pair_text_preconditions (fuel : Nat) (r : RuleId) (input : List Char) (ps : List Pair)
+    (h : Peg.parse gList fuel r input = .pairs ps) : ∀ q ∈ flatList ps,
+      (q.rule = R.OperationType → ∃ k, strToOperationType (asStr (Ctx.spec input) q) = .ok k) ∧
+      (q.rule = R.EscapedCharacter → ∃ ch, escapedChar (asStr (Ctx.spec input) q) = .ok ch) ∧
+      (q.rule = R.BlockStringValue → 6 ≤ (asStr (Ctx.spec input) q).length) ∧
+      (q.rule = R.EscapedUnicode4 → 2 ≤ (asStr (Ctx.spec input) q).length) ∧
+      (q.rule = R.NormalStringCharacter → ∃ d, asStr (Ctx.spec input) q = [d]) ∧
+      (q.rule = R.EscapedUnicodeBrace → ∃ d, q.children = [d] ∧ asStr (Ctx.spec input) d =
+        ((asStr (Ctx.spec input) q).drop 3).take ((asStr (Ctx.spec input) q).length - 4)) := by
+  intro q hq
+  obtain ⟨p, hp, hqp⟩ := mem_flatList hq
+  have hw : Wit gList input q := by
+    have := parse_wit gList fuel r input ps h p hp
+    clear hq hp h
+    induction this with
+    | mk kind body at_ fuel tr0 tr1 c c' hl hk hseen hc hc' hs he hb hcs ih =>
+      simp only [flat, List.mem_cons] at hqp
+      rcases hqp with rfl | hqp
+      · exact .mk kind body at_ fuel tr0 tr1 c c' hl hk hseen hc hc' hs he hb hcs
+      · obtain ⟨x, hx, hqx⟩ := mem_flatList hqp
+        exact ih x hx hqx
+  exact ⟨ParseText.operationType_ok hw, ParseText.escapedCharacter_ok hw, ParseText.blockString_len hw,
+    ParseText.unicode4_len hw, ParseText.normalChar_text hw, ParseText.unicodeBrace_child hw⟩
+
+/-- `parse_no_panic`: NO input text makes the model of `parse_operation_document` or of
+    `parse_type_system_document` end in a panic: every result is a document, a `ParseError` with a position, or the
+    model's own depth bound (`outOfFuel`, which is not a behaviour of the Rust code) — never `Outcome.panic`.
+    The walk goes through ALL builder functions of `Model/Build.lean` (strings, values, arguments, directives, types,
+    selection sets, variable definitions, operations, fragments, `#import`, descriptions, input values, fields, enum
+    values, implements-lists, the six type definitions and six type extensions, schema definitions / extensions,
+    directive definitions, both documents): each is only handed a pair of its subject rule, every matcher succeeds
+    (`run_children_in_shape` + the kernel-evaluated `accepts` of every extracted pattern against the shape of the
+    GENERATED grammar), every text-dependent site has its precondition (`pair_text_preconditions`), and the `\u` arms
+    decode because `validate_unicode_escapes` passed. -/
+theorem parse_no_panic (input : List Char) :
+    (parseOp input).isPanic = false ∧ (parseTs input).isPanic = false :=
+  ⟨parseWith_noPanic R.ExecutableDocument buildOperationDocument input look_ExecutableDocument (by decide)
+      (fun _ n hg hr => quiet_buildOperationDocument n hg hr),
+    parseWith_noPanic R.TypeSystemExtensionDocument buildTypeSystemDocument input look_TypeSystemExtensionDocument
+      (by decide) (fun _ n hg hr => quiet_buildTypeSystemDocument n hg hr)⟩
+
+/-- the same for the array-backed variants the compiled driver runs is NOT stated: `parseOpFast` / `parseTsFast` use
+    `Ctx.ofInput` and `gArr`, which agree with `Ctx.spec` / `gList` on every offset of the input
+    (`C07.driver_tables_agree`). -/
+example : (parseOp "query Q($v: [Int!] = [1, 2]) @d(a: \"x\\u{1F600}\") { a: b(x: {k: $v}) { ...F ... on T { c } } }".toList).isPanic
+    = false := (parse_no_panic _).1
+
 /-
 OPEN — carried by K/O only (stated, not proved):
-
-theorem parse_no_panic : ∀ input, (parseOp input).isPanic = false ∧ (parseTs input).isPanic = false
-  -- PROVED above for all inputs: every positional matcher succeeds at every pair of every parse tree
-  -- (`parsed_pairs_match_patterns`), i.e. the panic classes partsExpected / onlyChildNone / onlyChildMany /
-  -- allChildren / unexpectedRule (dispatch arms) / implementsHead / implementsItem cannot occur on a pair of the
-  -- subject rule, and the `\u` arms cannot panic after validation (`validated_escape_decodes`).
-  -- For `build_type` and for the value / string / argument / directive builders the composition is done
-  -- (`buildType_no_panic`, `value_builders_no_matcher_panic`).
-  -- NOT proved: (a) the same walk through the other ~30 builder functions of Build.lean that composes these facts
-  -- into the closed statement above (each builder is only ever handed a pair of its subject rule because the matchers check
-  -- the rules — argued, not formalised); (b) the panic sites that depend on the TEXT of a pair rather than on
-  -- its children: `str_to_operation_type` (text of an OperationType pair is a keyword), `Unknown escape sequence`
-  -- (text of EscapedCharacter), the two `split_at` (BlockStringValue ≥ 6 chars, EscapedUnicode4 ≥ 2),
-  -- `chars().next().unwrap()` (NormalStringCharacter non-empty): accounted as "constant" in
-  -- translate/sites_accounted.json, never produced on any K text. Carried by K (model = code on the outcome of
-  -- every text of the malformed stream) and O (no panic of the real parser on that stream).
 
 theorem resolveExt_total, resolveImports_total, check_total, generate_total, render_error_total, loader_total
   -- later stages: exercised by the O stream of c08.rs only (every public entry point under catch_unwind);
   -- generate_total is FALSE today (open finding: same response key for a leaf and an object).
+
+What `parse_no_panic` does NOT say: (1) it is about the MODEL (`Model/Peg.lean` + `Model/Build.lean`, generated tables);
+that the model's outcome — including the panic site — equals the real parser's on every text is the K stream;
+(2) `outOfFuel` is excluded from "panic" by definition of `Outcome.isPanic`; that the depth bounds `defaultFuel` /
+`4·|input| + 64` are never hit is not proved (never observed on any K text); (3) the compiled driver runs the
+array-backed `parseOpFast` / `parseTsFast` (equal tables: `C07.driver_tables_agree`).
 -/
 
 end NitroVerif.C08
